@@ -69,6 +69,14 @@ using Vec = amc::SmallVector<Elem, CFG_N, Alloc, CFG_ST>;
 #endif
 using Ref = std::vector<int>;
 
+// a reference to the value stored inside an element (an `int&` that aliases the element's storage)
+static inline const int &innerRef(const int &e) { return e; }
+template <bool S>
+static inline const int &innerRef(const ElemBase<S> &e) {
+  e.get();
+  return e.val;
+}
+
 // optional partner vector type for swap2 (same element type, any flavour / N / size_type / allocator)
 #ifdef CFG2_FL
 #if CFG2_ALLOC == 0
@@ -303,6 +311,8 @@ int main(int argc, char **argv) {
         res = "exc:overflow";
       } catch (const std::out_of_range &) {
         res = "exc:range";
+      } catch (const AllocThrow &) {
+        res = "exc:alloc";
       } catch (const std::bad_alloc &) {
         res = "exc:alloc";
       }
@@ -420,6 +430,17 @@ int main(int argc, char **argv) {
             size_t p = N(2) % (sz + 1), i = N(3) % sz;
             G().fuel = armed;
             auto it = v.emplace(v.begin() + p, v[(ST)i]);
+            G().fuel = 0;
+            ret = std::to_string(it - v.begin());
+            r.emplace(r.begin() + p, Ref(r)[i]);
+          }
+        } else if (op == "empa") {
+          // emplace whose constructor argument is not a T but a reference INTO the element at index i (its value member)
+          if (sz == 0) skip = true;
+          else {
+            size_t p = N(2) % (sz + 1), i = N(3) % sz;
+            G().fuel = armed;
+            auto it = v.emplace(v.begin() + p, innerRef(v[(ST)i]));
             G().fuel = 0;
             ret = std::to_string(it - v.begin());
             r.emplace(r.begin() + p, Ref(r)[i]);
@@ -636,6 +657,8 @@ int main(int argc, char **argv) {
         res = "exc:overflow";
       } catch (const std::out_of_range &) {
         res = "exc:range";
+      } catch (const AllocThrow &) {
+        res = "exc:alloc";
       } catch (const std::bad_alloc &) {
         res = "exc:alloc";
       } catch (const ElemThrow &) {
